@@ -33,9 +33,9 @@ pub fn spec(property: &str) -> Option<E1Check> {
             design_ref: "DESIGN.md section 4 (C01)",
             rule: "seeded histories of struct-API layer requests, LayerRef writes, buildpack file operations and stub-lifecycle restores over up to 4 layers; distinct = distinct (op kind, decision path, outcome) sequences; non-trivial = contains a request on a layer that already existed after a restore",
             assumptions: &[
-                "layer names from [a-z0-9_-]{1,12}, pairwise distinct",
-                "layer TOML only ever written by libcnb or the stub restorer",
-                "metadata types used by the harness round-trip through their own serialisation and deny unknown fields",
+                "layer names from a fixed pool incl. dotted and prefix-related names ([a-z0-9._-]{1,12}), pairwise distinct",
+                "layer TOML written by libcnb and the stub restorer; the harness only changes its mode, replaces it by a link to a live TOML file, or (C20 scenarios) truncates it",
+                "metadata types used by the harness: generic, two that deny unknown fields, one that ignores unknown keys, one that TOML cannot represent (write must fail)",
                 "the stub lifecycle stands in for the platform; oracles compare pre- and post-request state, so they do not depend on the stub being faithful",
                 "harness runs as uid 0 on tmpfs",
             ],
@@ -51,7 +51,7 @@ pub fn spec(property: &str) -> Option<E1Check> {
             assumptions: &[
                 "callbacks keep their own files outside env*/ and exec.d/",
                 "call counts are asserted for create/update only",
-                "layer names from [a-z0-9_-]{1,12}",
+                "layer names from a fixed pool incl. dotted and prefix-related names",
             ],
         },
         "C03" => E1Check {
@@ -90,7 +90,7 @@ pub fn spec(property: &str) -> Option<E1Check> {
             rule: "seeded hostile layer trees (nesting to depth 6, modes 0555/0666/0000/0311, symlinks to files and directories outside, relative/absolute, dangling, cycles, the layer path itself a symlink) followed by deleting requests, with canary trees and sibling layers snapshotted including modes and link targets",
             assumptions: &[
                 "a symlinked layer path is only followed by deleting requests",
-                "hostile entries stay out of env*/ and exec.d/",
+                "hostile links stay out of env*/ and exec.d/ (stray files named like them, and SBOM/TOML entries that are links, are separate generated states)",
             ],
         },
         _ => return None,
